@@ -1,5 +1,143 @@
-"""placeholder until the CrossHair runner is built"""
+"""C20 term level / C09 _enforce_structure — CrossHair harnesses (CH-enum: bounded symbolic ints picked by explicit branching)."""
+from typing import Any
+
+from formulaic.errors import FactorEncodingError
+from formulaic.formula import SimpleFormula
+from formulaic.parser.types import Factor, Term
+from formulaic.utils.calculus import differentiate_term
 
 
-def run(check):
-    return None
+def _pick(x, lo, hi):
+    for v in range(lo, hi):
+        if x == v:
+            return v
+    return hi
+
+
+POOL = ["a", "b", "c", "log(a)", "a:b"]
+VARS = ["a", "b", "c", "d"]
+
+
+def _term(mask):
+    fs = [Factor(POOL[i]) for i in range(len(POOL)) if mask & (1 << i)]
+    if not fs:
+        fs = [Factor("1", eval_method="literal")]
+    return Term(fs)
+
+
+def _expected(mask, wrt):
+    cur = [POOL[i] for i in range(len(POOL)) if mask & (1 << i)]
+    for v in wrt:
+        if v not in cur:
+            return ["0"]
+        cur = [f for f in cur if f != v]
+    return cur or ["1"]
+
+
+def dterm(mask: int, n: int, w1: int, w2: int) -> bool:
+    """
+    pre: 0 <= mask < 32 and 1 <= n <= 2 and 0 <= w1 < 4 and 0 <= w2 < 4 and mask % 4 == __SHARD__
+    post: _
+    """
+    mask, n, w1, w2 = _pick(mask, 0, 31), _pick(n, 1, 2), _pick(w1, 0, 3), _pick(w2, 0, 3)
+    wrt = [VARS[w1], VARS[w2]][:n]
+    d = differentiate_term(_term(mask), wrt)
+    return [f.expr for f in d.factors] == _expected(mask, wrt)
+
+
+def dformula(m1: int, m2: int, m3: int, w1: int) -> bool:
+    """
+    pre: 0 <= m1 < 8 and 0 <= m2 < 8 and 0 <= m3 < 8 and 0 <= w1 < 3 and m1 == __SHARD__
+    post: _
+    """
+    m1, m2, m3, w1 = _pick(m1, 0, 7), _pick(m2, 0, 7), _pick(m3, 0, 7), _pick(w1, 0, 2)
+    masks = [m1, m2, m3]
+    f = SimpleFormula([_term(m) for m in masks], _ordering="none")
+    d = f.differentiate(VARS[w1])
+    got = [[x.expr for x in t.factors] for t in d]
+    return got == [_expected(m, [VARS[w1]]) for m in masks]  # same number and order of terms
+
+
+# ------------------------------------------------------------------------------------------------ C09: _enforce_structure
+
+_MAT = None
+
+
+def _materializer():
+    global _MAT
+    if _MAT is None:
+        from interface_meta import override
+
+        from formulaic.materializers.base import FormulaMaterializer
+
+        class _Unit(FormulaMaterializer):
+            REGISTER_NAME = None
+
+            @override
+            def _init(self):
+                pass
+
+            @override
+            def _encode_constant(self, value, metadata, encoder_state, spec, drop_rows):
+                return ("const", value)
+
+            @override
+            def _encode_categorical(self, values, metadata, encoder_state, spec, drop_rows, reduced_rank=False):
+                raise NotImplementedError
+
+            @override
+            def _encode_numerical(self, values, metadata, encoder_state, spec, drop_rows):
+                raise NotImplementedError
+
+            @override
+            def _combine_columns(self, cols, spec, drop_rows):
+                raise NotImplementedError
+
+        _MAT = _Unit({}, {})
+    return _MAT
+
+
+GEN = ["p", "q", "r"]
+REC = ["p", "q", "r", "s", "t", "u"]
+
+
+def enforce(k: int, m: int, r1: int, r2: int, r3: int) -> bool:
+    """
+    pre: 0 <= k <= 3 and 0 <= m <= 3 and 0 <= r1 < 6 and 0 <= r2 < 6 and 0 <= r3 < 6 and k == __SHARD__
+    post: _
+    """
+    from formulaic.materializers.base import EncodedTermStructure
+    from formulaic.model_spec import ModelSpec
+
+    k, m, r1, r2, r3 = _pick(k, 0, 3), _pick(m, 0, 3), _pick(r1, 0, 5), _pick(r2, 0, 5), _pick(r3, 0, 5)
+    recorded = [REC[i] for i in (r1, r2, r3)[:m]]
+    if len(set(recorded)) != len(recorded):
+        return True  # recorded column names are distinct by construction of a spec
+    generated = {name: ("col", name) for name in GEN[:k]}
+    term = Term([Factor("x")])
+    spec = ModelSpec(formula=[], structure=[EncodedTermStructure(term, [], list(recorded))])
+    try:
+        out = list(_materializer()._enforce_structure([(term, [], dict(generated))], spec, []))
+    except FactorEncodingError:
+        # allowed whenever the generated names are not exactly the recorded ones
+        return set(generated) != set(recorded)
+    (t, _, cols), = out
+    if list(cols) != recorded:  # exactly the recorded columns, in recorded order
+        return False
+    for name in recorded:
+        if name in generated and len(generated) == len(recorded):
+            if cols[name] != generated[name]:
+                return False
+        elif len(generated) == 0:
+            if cols[name] != ("const", 0):  # documented imputation: an empty term becomes zero columns
+                return False
+        elif len(generated) == 1 and len(recorded) > 1:
+            if cols[name] != next(iter(generated.values())):  # documented imputation: single column broadcast
+                return False
+        else:
+            return False
+    return True
+
+
+def explain(fname, call):
+    return f"{fname} fails for {call}"
